@@ -24,3 +24,4 @@ def run(ck):
     floatmask.r11b_blend_degrees_8bit(ck, P)
     status.r_same_storage_needs_same_stride(ck, P, 'C01-R13')   # the pixbuf fast paths replace the general source-in-mask pipeline
     sampling.r17_cursor_step_follows_pipeline(ck, P, 'C01-R14')
+    algebra.r9_operator_table(ck, P, 'C01-R15')      # the operator actually combined is the one operator_table substitutes
